@@ -96,6 +96,30 @@ CHECKS.update({
    technique="Coq proof over an explicit block heap with failing allocation oracle + exhaustive allocation-failure injection through a guarded hook",
    ref="DESIGN.md section 6 C17"),
 })
+CHECKS.update({
+ "C05": dict(
+   text="Theorems C05_sync_set_partial / C05_sync_del_partial: after every insert and every delete (any tree satisfying the invariant, any node sizes, under the C04 guard) every stored node that the operation did not mark changed still EQUALS its record -- so evicting any set of unchanged nodes between operations and reloading them from their records is the identity, and with C04_reader_partial the whole tree can be dropped and reloaded at any commit point. The part of the property that lives in the run time -- pins (sticky state) while an operation runs, cache sweeps from INSIDE key comparisons, failing operations leaving nothing pinned -- is decided by the harness: histories on stored containers of all families with sweeps / single-node deactivations between calls; object-keyed containers whose comparison sweeps the cache on every comparison, compared with an un-swept twin; after every call (also failing ones: bad key, missing key, unusable bound) no node is sticky and every stored unchanged node is evictable.",
+   note="Partial: the model has no notion of a pin; pin discipline and sweeps inside comparisons are exercised, not proved (runtime behaviour of cPersistence the model cannot exhibit). Guard no_embed_below as in C04 (finding F16). Findings F12 and F25 (C) found and fixed; F24 (pure Python has no pin protection at all) is a recorded finding. harness/minijar.py + persistent.PickleCache stand in for ZODB. Print Assumptions: closed.",
+   technique="Coq proof that unchanged stored nodes stay equal to their records (eviction = identity between operations) + eviction-schedule exploration incl. sweeps inside comparisons and pin checks after failing calls",
+   ref="DESIGN.md section 6 C05"),
+ "C08": dict(
+   text="Theorems C08_writes_declare_reads_set / _del (every insert and every delete -- also one that ends in KeyError -- declares EVERY interior node it descended through as a read dependency, for all trees and keys), C08_reads_declare_nothing (lookups, len, bool, keys, items, isdisjoint emit no event and change nothing); together with the write footprint of C04 and the exact leaf merge of C07 these are the facts optimistic concurrency control relies on. The OUTCOME clause (the second commit conflicts, or the stored tree is sound and its contents are the serial result or the merge of two disjoint change sets) is decided by the harness: random committed base trees of all families and both implementations at node sizes (2,2)..defaults, two transactions of 1..3 operations (insert / delete / replace / clear) on separate connections, both commit orders with conflict resolution, a third connection reads the result and checks _check(), the independent walker and the contents; the read-dependency declarations of every write and of pure reads are checked against the connection.",
+   note="Partial: the protocol-level outcome statement is checked on explored schedules, not proved (the composition footprint + merge + read-current => serializable-or-merged is not a theorem here). harness/minijar.py implements ZODB's commit protocol (read-current check, per-object resolution with placeholders for references). Base trees already unsound after their own commit (finding F16 of C04) are skipped. Print Assumptions: closed.",
+   technique="Coq proofs of the read-dependency footprint of writes and of the silence of reads + two-connection commit-schedule exploration with conflict resolution",
+   ref="DESIGN.md section 6 C08"),
+ "C09": dict(
+   text="Both implementations are tied to ONE Coq model whose only differences are explicit switches (isC / vsame / iand_rebuilds). Theorems: C09_results_equal (for every history, every node-size setting, the two settings of the switches give the same results and the same final contents), C09_shape_equal (for every history without the set operator &=, the resulting trees are IDENTICAL -- separators, leaf boundaries, node identities -- hence equal serialized state), C09_conversions_agree (the C and the Python integer conversion accept the same values, except objects that merely define __index__). The harness runs one history on the C and on the Python class of all 22 families x 4 kinds side by side, interleaving calls whose key or value lies OUTSIDE the family's domain (out-of-range ints, wrong types, None, floats, bools, default-comparison objects, unhashable values): equal result, same exception class, equal contents, equal shape, byte-identical pickle after every call.",
+   note="Partial: exception classes and out-of-domain arguments are outside the Coq model (differential only). Recorded divergences: F17 (&= leaves different shapes), F27 (fs pickles differ by a memo reference), F28 (exception classes on an empty container), F29 (setdefault with an unusable value on an existing key); F30 fixed. byValue, error texts and update()'s return value are excluded by the property. Print Assumptions: closed.",
+   technique="Coq proof that the model's C/Python switches do not influence results, contents or shape + paired differential execution incl. out-of-domain arguments",
+   ref="DESIGN.md section 6 C09"),
+})
+CHECKS.update({
+ "C06": dict(
+   text="Theorems C06_pickle_roundtrip_partial (for EVERY tree satisfying the invariant in which only the root may hold a single leaf child: the object graph that pickle / deepcopy writes -- every object once, with the state __getstate__ returns, a single leaf child embedded in its parent's state -- is rebuilt by the reader into a container with the same ordered contents, by descent and along the leaf chain, that satisfies the stored invariant both checkers decide (C18)), C06_refuted (without the guard the statement is false: witness tree whose copy fails _check -- finding F16c, both implementations). Correspondence: for every generated history the records the model writes (dump_all []) are compared, object by object in pre-order, with what __getstate__ of the C and of the Python container returns (items, next links, separators, firstbucket, embedded form). Differential part: __getstate__/__setstate__, pickle protocols 0..5, copy and deepcopy in C and Python on all 22 families x 4 kinds; byte comparison C vs Python for every protocol; C pickles loaded in a pure-Python process (PURE_PYTHON=1) and its pickles compared byte-wise with the C ones; every reproduced container is checked for contents, _check(), the independent walker, and replays follow-up calls like the original.",
+   note="Partial: the byte level of pickle is CPython's (the model covers the state values); guard no_embed_below (F16c is a recorded finding); F27 (fs pickles differ by a memo back-reference) recorded; F18, F19 (copy.copy of pure-Python trees) found and fixed. Print Assumptions: closed.",
+   technique="Coq proof (reader reconstruction of the pickled object graph, refutation witness) + object-graph correspondence with __getstate__ + differential pickle/copy/cross-implementation loading",
+   ref="DESIGN.md section 6 C06"),
+})
 NOT_YET = {}
 
 def main():
